@@ -485,6 +485,9 @@ def build():
     defs.append(("type_schemas", "list (N * (bool * (list (N * (N * list N)) * list N)))", ts))
     defs.append(("ipseckey_schema", "N * (bool * (list (N * (N * list N)) * list N))", ipk))
     defs.append(("ipseckey_gateways", "list (N * (N * N))", gws))
+    svm = mnemonics("src/base/iana/svcb.rs", "SvcParamKey")
+    one(r'int_enum_str_with_prefix!\(SvcParamKey,\s*"key",\s*b"key",\s*u16', strip_comments(read("src/base/iana/svcb.rs")), "SvcParamKey prefix")
+    defs += [("svc_mnemonics", "list (N * list N)", table(svm)), ("svc_prefix", "list N", coq_str("key"))]
     defs += [("rtype_mnemonics", "list (N * list N)", table(rts)), ("class_mnemonics", "list (N * list N)", table(cls)),
              ("rtype_prefix", "list N", coq_str("TYPE")), ("class_prefix", "list N", coq_str("CLASS"))]
     return defs
